@@ -467,6 +467,9 @@ func (ex *Exec) convert(p *Path, v Value, to types.Type, pos token.Pos) Value {
 		return Value{app(f, v.T), to}
 	case from == "String" && strings.HasPrefix(toS, "|Slice:"):
 		f := ex.c.Fun("str2bytes:"+sortToken(toS), []string{"String"}, toS)
+		// language semantics: string([]byte(s)) == s
+		g := ex.c.Fun("bytes2str", []string{toS}, "String")
+		ex.c.Axiom("str-bytes-str:"+toS, "(forall ((s String)) (! (= "+app(g, app(f, "s"))+" s) :pattern ("+app(f, "s")+")))")
 		return Value{app(f, v.T), to}
 	}
 	ex.unsupp(pos, "conversion from %s (%s) to %s (%s)", v.Ty, from, to, toS)
